@@ -1,7 +1,7 @@
 (** C04 — mass leaves only via fixation/loss.  Only statements; every proof is [exact <lemma>]. *)
 From Coq Require Import Reals List Lra Lia Bool.
 From Dadi Require Import Base.Num Base.NumR Model.Tridiag Model.Scheme Model.NDSweep
-  Proofs.TridiagProofs Proofs.SchemeProofs Proofs.MassBalance Proofs.Drivers.
+  Proofs.TridiagProofs Proofs.SchemeProofs Proofs.MassBalance Proofs.Drivers Proofs.NDLines Proofs.NDSweepProofs.
 Import ListNotations.
 Local Open Scope R_scope.
 
@@ -39,6 +39,31 @@ Theorem C04_mass_conserved_off_corner : forall xs Vf Mf nu c0 c1 dt use_delj, (2
   nonzero (all_pivots (line_rows xs Vf Mf nu c0 c1 dt use_delj phi)) ->
   trapz xs (line_solve xs Vf Mf nu c0 c1 dt use_delj phi) = trapz xs phi.
 Proof. exact line_mass_conserved_off_corner. Qed.
+
+(** d dimensions, any axis k: integrating population k out (trapezoid rule) before and after its sweep gives the same
+    joint density of the other populations at every point that is not the all-0 or the all-1 corner *)
+Theorem C04_sweep_preserves_marginal_off_corners : forall shape grids pops k p, nth_error pops k = Some p ->
+  length (nth k grids []) = ax_len shape k -> forall dt dj phi o q, (2 <= ax_len shape k)%nat ->
+  (forall i, (i < length (nth k grids []) - 1)%nat -> 0 < dx (nth k grids []) i) -> dt <> 0 ->
+  (o < ax_outer shape k)%nat -> (q < ax_inner shape k)%nat ->
+  corner0 shape grids k o q = false -> corner1 shape grids k o q = false ->
+  nonzero (all_pivots (line_rows (nth k grids []) (Vfunc_beta (p_nu p) (p_beta p)) (Mline shape grids k p o q) (p_nu p) false false dt dj (get_line shape k phi o q))) ->
+  trapz (nth k grids []) (get_line shape k (sweep shape grids pops k dt dj phi) o q) = trapz (nth k grids []) (get_line shape k phi o q).
+Proof. exact sweep_preserves_marginal_off_corners. Qed.
+Print Assumptions C04_sweep_preserves_marginal_off_corners.
+
+(** ... and at those two corners the loss is dt * outflow * density at the end point of the corner line *)
+Theorem C04_sweep_mass_balance_on_every_line : forall shape grids pops k p, nth_error pops k = Some p ->
+  length (nth k grids []) = ax_len shape k -> forall dt dj phi o q, (2 <= ax_len shape k)%nat ->
+  (forall i, (i < length (nth k grids []) - 1)%nat -> 0 < dx (nth k grids []) i) -> dt <> 0 ->
+  (o < ax_outer shape k)%nat -> (q < ax_inner shape k)%nat ->
+  nonzero (all_pivots (line_rows (nth k grids []) (Vfunc_beta (p_nu p) (p_beta p)) (Mline shape grids k p o q) (p_nu p)
+                                 (corner0 shape grids k o q) (corner1 shape grids k o q) dt dj (get_line shape k phi o q))) ->
+  let u := get_line shape k (sweep shape grids pops k dt dj phi) o q in
+  trapz (nth k grids []) (get_line shape k phi o q) =
+  trapz (nth k grids []) u + dt * (out0 (nth k grids []) (Mline shape grids k p o q) (p_nu p) (corner0 shape grids k o q) * nthF u 0
+                                  + out1 (nth k grids []) (Mline shape grids k p o q) (p_nu p) (corner1 shape grids k o q) * nthF u (length (nth k grids []) - 1)).
+Proof. exact sweep_mass_balance_line. Qed.
 
 (** zero-duration integration returns the density unchanged (constant and time-dependent drivers) *)
 Theorem C04_zero_duration_identity : forall fuel shape grids (pops : list (@pop R)) theta0 tf use_delj t phi,
